@@ -2,6 +2,8 @@ import Rtcm.Model.Scan
 import Rtcm.Model.Bits
 import Rtcm.Model.TokText
 import Rtcm.Gen.DfTable
+import Rtcm.Model.Message
+import Rtcm.Gen.Messages
 /-!
 Line-protocol driver for the correspondence check: one operation per input line, one canonical
 answer line per operation. Import-free below (no Mathlib) so that it links as an executable.
@@ -88,8 +90,74 @@ def opDfDec (cfg : Cfg) (id : String) (len pattern : Nat) : String :=
     | _ => "BAD-OP"
   | none => "BAD-OP"
 
+def msgText : Message.Msg → String
+  | .empty => "EMPTY"
+  | .corrupt => "CORRUPT"
+  | .notSupported n => s!"UNSUPPORTED {n}"
+  | .typed n ts => s!"MSG {n} " ++ toksText ts
+
+def opDec (cfg : Cfg) (d : List UInt8) : String :=
+  match frameNew d with
+  | .ok f =>
+    match Message.decodeFrame cfg Gen.messageTable f with
+    | .ok m => msgText m
+    | .err e => "ERR " ++ e.name
+    | .panic _ => "PANIC"
+  | .error .incomplete => "FRAME-ERR Incomplete"
+  | .error .notValid => "FRAME-ERR NotValid"
+
+def buildResText : Res (List Nat) → String
+  | .ok fr => hexOrDash (bytesNat fr)
+  | .err e => "ERR " ++ e.name
+  | .panic w => if w.startsWith "tokens" then "BAD-OP" else "PANIC"
+
+def parseMsg (ws : List String) : Option Message.Msg :=
+  match ws with
+  | ["E"] => some .empty
+  | ["C"] => some .corrupt
+  | [u] =>
+    if u.startsWith "U" then (u.drop 1).toString.toNat?.map .notSupported
+    else u.toNat?.map fun n => .typed n []
+  | n :: rest =>
+    match n.toNat?, parseToks rest with
+    | some n, some ts => some (.typed n ts)
+    | _, _ => none
+  | [] => none
+
+def opEnc (cfg : Cfg) (ws : List String) : String :=
+  match parseMsg ws with
+  | some m => buildResText (Message.Builder.new.build cfg Gen.messageTable Gen.sigTable_glo m).2
+  | none => "BAD-OP"
+
+def splitOnSemi (ws : List String) : List (List String) :=
+  let r := ws.foldl (fun (acc : List (List String) × List String) w =>
+    if w == ";" then (acc.2.reverse :: acc.1, []) else (acc.1, w :: acc.2)) ([], [])
+  (r.2.reverse :: r.1).reverse
+
+def opBuildSeq (cfg : Cfg) (ws : List String) : String :=
+  match (splitOnSemi ws).mapM parseMsg with
+  | some ms =>
+    " ; ".intercalate ((Message.buildSeq cfg Gen.messageTable Gen.sigTable_glo .new ms).map buildResText)
+  | none => "BAD-OP"
+
+def parseNatsSp (ws : List String) : Option (List Nat) := ws.mapM String.toNat?
+
 def handleCfg (cfg : Cfg) (toks : List String) : String :=
   match toks with
+  | ["DEC", h] => match bytesOfHex h with | some d => opDec cfg d | none => "BAD-OP"
+  | "ENC" :: ws => opEnc cfg ws
+  | "BUILDSEQ" :: ws => opBuildSeq cfg ws
+  | "STR88591" :: n :: cps =>
+    match n.toNat?, parseNatsSp cps with
+    | some n, some cs => hexOrDash (bytesNat (Text.df88591From n cs)) ++ " " ++
+        " ".intercalate ((Text.df88591Chars (Text.df88591From n cs)).map toString)
+    | _, _ => "BAD-OP"
+  | "ASTR" :: n :: cps =>
+    match n.toNat?, parseNatsSp cps with
+    | some n, some cs =>
+      let b := Text.arrayStringFrom n cs
+      hexOrDash (bytesNat b) ++ (if Text.validUtf8 b then " valid" else " INVALID")
+    | _, _ => "BAD-OP"
   | "DFENC" :: id :: ws => opDfEnc cfg id ws
   | ["DFDEC", id, len, p] =>
     match len.toNat?, p.toNat? with
